@@ -6,7 +6,7 @@ SEEDS="$@"; [ -z "$SEEDS" ] && SEEDS=$(ls seeded)
 for s in $SEEDS; do
   P=$(python3 -c "import json;print(json.load(open('seeded/$s/meta.json'))['breaks_property'])")
   git -C /repo checkout -- . 2>/dev/null
-  git -C /repo apply seeded/$s/patch.diff || { echo "$s: patch does not apply"; continue; }
+  git -C /repo apply /verif/seeded/$s/patch.diff || { echo "$s: patch does not apply"; continue; }
   S=$(date +%s)
   timeout 3600 ./check $P quick > /tmp/seedcheck_$s.log 2>&1; RC=$?
   git -C /repo checkout -- .
